@@ -458,6 +458,56 @@ impl<T: Bits> OutPort for POut<T> {
     }
 }
 
+/// Packet output of any payload type, recorded through a conversion.
+pub struct POutF<T> {
+    r: Option<NCReadStream<T>>,
+    rec: OutRec,
+    id: usize,
+    conv: fn(&T) -> Vec<u64>,
+}
+
+pub fn pout_with<T>(r: NCReadStream<T>, conv: fn(&T) -> Vec<u64>) -> Box<POutF<T>> {
+    use rustradio::stream::StreamWait;
+    let id = r.verif_id();
+    Box::new(POutF {
+        r: Some(r),
+        rec: OutRec::default(),
+        id,
+        conv,
+    })
+}
+
+impl<T> OutPort for POutF<T> {
+    fn observe(&mut self) {
+        let Some(r) = self.r.as_ref() else { return };
+        while let Some((v, _)) = r.pop() {
+            self.rec.packets.push((self.conv)(&v));
+        }
+    }
+    fn release(&mut self, _n: usize) {}
+    fn held(&self) -> usize {
+        0
+    }
+    fn free(&self) -> usize {
+        usize::MAX / 2
+    }
+    fn capacity(&self) -> usize {
+        usize::MAX / 2
+    }
+    fn id(&self) -> usize {
+        self.id
+    }
+    fn rec(&self) -> &OutRec {
+        &self.rec
+    }
+    fn close(&mut self) {
+        self.r = None;
+    }
+    fn is_packet(&self) -> bool {
+        true
+    }
+}
+
 /// Queue the output stream spec(s) that the block constructor will consume.
 pub fn plan_out(st: &Start, n: usize) {
     for _ in 0..n {
@@ -786,13 +836,32 @@ pub fn execute(mut inst: Instance, acts: &[Act], flush: bool) -> Exec {
         }
     }
     let fed = inst.ins.iter().map(|p| p.fed()).collect();
+    // A runner drops a retired block; some blocks emit on drop (Hasher). Only
+    // after a clean end: a block that panicked may not be safe to drop.
+    let outputs = if completed && ok_to_drop(&steps) {
+        let Instance { block, ins, mut outs } = inst;
+        let r = catch(move || drop(block));
+        if r.is_ok() {
+            for o in &mut outs {
+                o.observe();
+            }
+        }
+        drop(ins);
+        outs.iter().map(|o| o.rec().clone()).collect()
+    } else {
+        inst.records()
+    };
     Exec {
         steps,
-        outputs: inst.records(),
+        outputs,
         explicit,
         completed,
         fed,
     }
+}
+
+fn ok_to_drop(steps: &[StepObs]) -> bool {
+    !steps.iter().any(|s| matches!(s.verdict, Verdict::Panic(_)))
 }
 
 /// Would a runner stop calling the block after this step? Both runners retire
